@@ -23,10 +23,13 @@ if False:
 
 
 def extract_scope(source, project):
-    # type: (Source, Project) -> SourceScope
+    # type: (Source, Project | None) -> SourceScope
     scope = SourceScope(source)
     extract(source.tree, scope.flow)
-    scope.resolve_star_imports(project)
+    if project is None:
+        scope._star_imports[:] = []
+    else:
+        scope.resolve_star_imports(project)
     return scope
 
 
